@@ -70,16 +70,14 @@ fn sweeps(tier: Tier) -> Vec<(&'static str, Strings)> {
     let mut v = Vec::new();
     for cfg in CONFIGS {
         let l = match (tier, *cfg) {
-            (Tier::Quick, "builtin") => 4,
-            (Tier::Quick, _) => 3,
-            (Tier::Thorough, "builtin") => 5,
-            (Tier::Thorough, _) => 4,
+            (Tier::Quick, _) => 4,
+            (Tier::Thorough, _) => 5,
         };
         v.push((*cfg, Strings::new(&alphabet(cfg, false), l)));
     }
     // deeper over the small alphabet for the registered-operator configurations
     for cfg in &CONFIGS[1..] {
-        v.push((*cfg, Strings::new(&alphabet(cfg, true), tier.pick(4, 5))));
+        v.push((*cfg, Strings::new(&alphabet(cfg, true), tier.pick(5, 6))));
     }
     v
 }
@@ -277,7 +275,7 @@ impl Prop for C10 {
                 "when both lexers reject, only rejection is compared (which lexical error is reported first is not specified)".into(),
             ],
             exhaustive: true,
-            bound: format!("builtin L={}, registered sets L={} (+ L={} over the 16-fragment sub-alphabet)", tier.pick(4, 5), tier.pick(3, 4), tier.pick(4, 5)),
+            bound: format!("all three operator sets L={} (+ L={} over the 16-fragment sub-alphabet for the registered sets)", tier.pick(4, 5), tier.pick(5, 6)),
             states_note: "states = strings enumerated per operator set; transitions = one-fragment extensions".into(),
         }
     }
